@@ -140,8 +140,9 @@ impl ContinuityStore {
     // contract of create_continuity_locked as proved in unit c01_cont (callers see only the contract)
     #[verifier::external_body]
     pub fn create_continuity_locked(&self, next_seq: &mut SeqGuard, workspace: String, continuity_id: Option<String>, title: Option<String>, set_as_default: bool) -> (ret: Result<String, String>)
-        requires continuity_id matches Some(id) ==> reserved(id@, 0),
+        requires continuity_id matches Some(id) ==> reserved(id@, 0), old(next_seq).held(),
         ensures
+            final(next_seq).held(),
             ret matches Ok(id) ==> appended(id@, 0) && reserved(id@, 1),
             ret matches Ok(id) ==> !old(next_seq)@.contains_key(id@) && final(next_seq)@ == old(next_seq)@.insert(id@, 1),
             ret is Err ==> final(next_seq)@ == old(next_seq)@,
